@@ -21,6 +21,9 @@ json schema8()
 		{{"n", "fn"}, {"t", "func"}, {"fn", "sim"}},
 		{{"n", "vi"}, {"t", "int"}, {"d", 3}, {"vcb", 1}},
 		{{"n", "include"}, {"t", "func"}, {"fn", "include"}},
+		// deprecated options: every assignment is reported (and, with DROP, discarded) - on every parse, not only the first
+		{{"n", "old"}, {"t", "int"}, {"d", 0}, {"fl", F_DEPRECATED}},
+		{{"n", "gone"}, {"t", "str"}, {"fl", F_DEPRECATED | F_DROP}},
 	});
 	return {{"opts", opts}};
 }
@@ -61,6 +64,8 @@ const char *PROBES[] = {
 	"a = 1\nl = {1, zz}\n",
 	"# note one\na = 1\n/* block\n two */ s = \"x\"\n##\nb = on\n", // parsed with annotations on
 	"one { x = 3 # tail\n}\nms \"a\\\"b\" { v = 'it\\'s' }\nsl += \"x\\\ny\"\n",
+	"old = 4\ngone = \"x\"\na = 2\n",
+	"\n# spread over some lines\none {\n x = 7\n\n xl = {1,\n 2}\n}\nms \"t1\" {\n k = 3\n\n}\n",
 };
 const int NPROBES = sizeof(PROBES) / sizeof(PROBES[0]);
 
@@ -73,7 +78,7 @@ const EventKind EVENTS[] = {
 	{"trailing_backslash", 2}, {"err_in_list", 2}, {"err_in_func_args", 2}, {"err_in_nested", 2}, {"err_in_include", 3},
 	{"include_missing", 2}, {"include_depth", 2}, {"include_self", 1}, {"int_range_parser", 2}, {"float_range_parser", 1},
 	{"range_setopt", 2}, {"bad_escape", 2}, {"unknown_option", 1}, {"validator_veto", 2}, {"free_reinit", 2},
-	{"end_in_dq_in_include", 2}, {"range_setmulti", 2}, {"end_in_comment_in_include", 1}, {"include_dir", 2}, {"assignment_cut_after_equals", 2},
+	{"end_in_dq_in_include", 2}, {"range_setmulti", 2}, {"end_in_comment_in_include", 1}, {"include_dir", 2}, {"assignment_cut_after_equals", 2}, {"deprecated_assigned", 2}, {"sections_opened", 2},
 };
 const int NEVENTS = sizeof(EVENTS) / sizeof(EVENTS[0]);
 
@@ -151,6 +156,10 @@ void emit_event(Rng &r, int kind, int cl, int ctx, json &steps, const json &sche
 		buf("a = 8\ninclude(\"/inc/dir\")\n");
 	else if (k == "assignment_cut_after_equals")
 		buf(r.chance(1, 2) ? "l =" : "sl = (");
+	else if (k == "deprecated_assigned")
+		buf(r.chance(1, 2) ? "old = 3\ngone = y\n" : "gone = \"z\"\n");
+	else if (k == "sections_opened")
+		buf(r.chance(1, 2) ? "\n\n\none {\n x = 2\n\n}\nms \"t1\" {\n k = 1\n}\n" : "ms \"t1\" { k = 1 }\n\n\n\n\nms \"t2\" {\n\n k = 2\n}\none { x = 1 }\n");
 }
 
 json generate(uint64_t seed, uint64_t idx, int tier)
@@ -228,8 +237,10 @@ json generate(uint64_t seed, uint64_t idx, int tier)
 	// a rejected probe into a surviving (re-used) context: return code and diagnostics must not depend on what was
 	// parsed into it before (its values legitimately do)
 	if (r.chance(1, 2)) {
-		static const char *bad[] = {"a = 1\nl = {1, zz}\n", "\n\n\nb = maybe\n", "# c\n/* x\n y */\nf = 1e999\n", "s = \"two\nlines\"\nzzz = 1\n"};
-		json ps = parse_step((int)r.below(nclients), (int)r.below(nctx), "buf", bad[r.below(4)]);
+		// the last ones: an error inside a section that an earlier parse may already have opened; deprecated options assigned again
+		static const char *bad[] = {"a = 1\nl = {1, zz}\n", "\n\n\nb = maybe\n", "# c\n/* x\n y */\nf = 1e999\n", "s = \"two\nlines\"\nzzz = 1\n",
+					    "one {\n x = 3\n xl = {1, zz}\n}\n", "a = 1\nms \"t1\" {\n\n k = zz\n}\n", "old = 5\ngone = \"g\"\nb = maybe\n", "gone = 1\nold = 2\na = 3\n"};
+		json ps = parse_step((int)r.below(nclients), (int)r.below(nctx), "buf", bad[r.below(8)]);
 		ps["ctxprobe"] = 1;
 		steps.push_back(ps);
 	}
